@@ -1,0 +1,38 @@
+// Copyright 2021 TiKV Project Authors.
+//
+// Licensed under the Apache License, Version 2.0 (the "License");
+// you may not use this file except in compliance with the License.
+// You may obtain a copy of the License at
+//
+//     http://www.apache.org/licenses/LICENSE-2.0
+//
+// Unless required by applicable law or agreed to in writing, software
+// distributed under the License is distributed on an "AS IS" BASIS,
+// See the License for the specific language governing permissions and
+// limitations under the License.
+
+//go:build verif
+// +build verif
+
+// Machine-checked contracts for the member package (checked by /verif/govc; comment-only file).
+// Ghost state: the etcd maps as in server/id/zz_verif_contracts.go (etcdhas0/etcdval0: the store at the instant of the
+// last transaction commit, etcdn[0] commits of this process, etcdn[1] those that changed the store).
+package member
+
+// C03: the leader priority is member data written by the leader only: the write is a transaction guarded by the leader
+// record, so a member that is not the owner of the record when the transaction commits changes nothing and gets an error.
+//@ pure mOwner0(m *Member) = etcdhas0[m.leadership.leaderKey] && etcdval0[m.leadership.leaderKey] == m.leadership.leaderValue
+//@ func (*Member).SetMemberLeaderPriority
+//@   props C03
+//@   requires m != nil && m.leadership != nil
+//@   ensures [onecommit] etcdn[0] <= old(etcdn[0]) + 1
+//@   ensures [ok-committed-as-owner] result == nil ==> etcdn[0] == old(etcdn[0]) + 1 && mOwner0(m)
+//@   ensures [nonowner-changes-nothing] etcdn[0] == old(etcdn[0]) + 1 && !mOwner0(m) ==> etcdn[1] == old(etcdn[1]) && result != nil
+//@   modifies ghost etcdhas, ghost etcdval, ghost etcdlease, ghost etcdn, ghost etcdhas0, ghost etcdval0, ghost etcdlease0, ghost evres
+//@ func (*Member).DeleteMemberLeaderPriority
+//@   props C03
+//@   requires m != nil && m.leadership != nil
+//@   ensures [onecommit] etcdn[0] <= old(etcdn[0]) + 1
+//@   ensures [ok-committed-as-owner] result == nil ==> etcdn[0] == old(etcdn[0]) + 1 && mOwner0(m)
+//@   ensures [nonowner-changes-nothing] etcdn[0] == old(etcdn[0]) + 1 && !mOwner0(m) ==> etcdn[1] == old(etcdn[1]) && result != nil
+//@   modifies ghost etcdhas, ghost etcdval, ghost etcdlease, ghost etcdn, ghost etcdhas0, ghost etcdval0, ghost etcdlease0, ghost evres
